@@ -260,20 +260,24 @@ theorem take_best_shape (l : List Rec) (h2 : 2 ≤ l.length) (out : List Rec) (h
     rw [hsel] at this; exact (Option.some.inj this).symm
   exact ⟨cand, hsub, this, (firstWins_sublist _ cand).trans hsub⟩
 
-/-- **ties_flagged**: when the read is retained on alignments whose isoforms differ, every retained record is typed
-    `ambiguous` / `inconsistent_ambiguous` and marked as a multimapper -/
+/-- **ties_flagged**: when the read is retained on SEVERAL records whose isoforms differ, every retained record is typed
+    `ambiguous` / `inconsistent_ambiguous` and marked as a multimapper.  (`hsev`: a tie is a tie between loci - one
+    retained record that names two isoforms at its own locus is not one, see `single_winner_untouched`.) -/
 theorem ties_flagged (l : List Rec) (h2 : 2 ≤ l.length) (hin : NoSuspendedInput l) (out : List Rec)
-    (hout : resolve .take_best l = some out)
+    (hout : resolve .take_best l = some out) (hsev : 2 ≤ (retained out).length)
     (htie : ∃ r1 ∈ retained out, ∃ r2 ∈ retained out, ∃ a ∈ r1.isoforms, ∃ b ∈ r2.isoforms, a ≠ b) :
     ∀ r ∈ retained out, (r.atype = .ambiguous ∨ r.atype = .inconsistent_ambiguous) ∧ r.multimapper = true := by
   obtain ⟨cand, _, rfl, hksub⟩ := take_best_shape l h2 out hout
   have hmem := mem_retained_applyKeep (fun x hx => hksub.subset hx) hin
+  have hlen : 1 < (findDuplicates cand).length := by
+    have := congrArg List.length (retained_applyKeep_eq hksub hin)
+    rw [List.length_map] at this; omega
   obtain ⟨r1, hr1, r2, hr2, a, ha, b, hb, hab⟩ := htie
   obtain ⟨x1, hx1, rfl⟩ := (hmem r1).mp hr1
   obtain ⟨x2, hx2, rfl⟩ := (hmem r2).mp hr2
   have hT : changeT (findDuplicates cand) = true := by
-    simp only [changeT, decide_eq_true_eq, setSize_gt_one_iff]
-    refine ⟨a, List.mem_flatMap.mpr ⟨x1, hx1, ?_⟩, b, List.mem_flatMap.mpr ⟨x2, hx2, ?_⟩, hab⟩
+    simp only [changeT, Bool.and_eq_true, decide_eq_true_eq, setSize_gt_one_iff]
+    refine ⟨hlen, a, List.mem_flatMap.mpr ⟨x1, hx1, ?_⟩, b, List.mem_flatMap.mpr ⟨x2, hx2, ?_⟩, hab⟩
     · rw [← (sameAlignment_flag _ _ x1.1).2.2.2.2.2.2.2.2.1]; exact ha
     · rw [← (sameAlignment_flag _ _ x2.1).2.2.2.2.2.2.2.2.1]; exact hb
   intro r hr
@@ -287,17 +291,20 @@ theorem ties_flagged (l : List Rec) (h2 : 2 ≤ l.length) (hin : NoSuspendedInpu
 
 /-- the same for genes and the gene-level type -/
 theorem ties_flagged_genes (l : List Rec) (h2 : 2 ≤ l.length) (hin : NoSuspendedInput l) (out : List Rec)
-    (hout : resolve .take_best l = some out)
+    (hout : resolve .take_best l = some out) (hsev : 2 ≤ (retained out).length)
     (htie : ∃ r1 ∈ retained out, ∃ r2 ∈ retained out, ∃ a ∈ r1.genes, ∃ b ∈ r2.genes, a ≠ b) :
     ∀ r ∈ retained out, (r.gtype = .ambiguous ∨ r.gtype = .inconsistent_ambiguous) ∧ r.multimapper = true := by
   obtain ⟨cand, _, rfl, hksub⟩ := take_best_shape l h2 out hout
   have hmem := mem_retained_applyKeep (fun x hx => hksub.subset hx) hin
+  have hlen : 1 < (findDuplicates cand).length := by
+    have := congrArg List.length (retained_applyKeep_eq hksub hin)
+    rw [List.length_map] at this; omega
   obtain ⟨r1, hr1, r2, hr2, a, ha, b, hb, hab⟩ := htie
   obtain ⟨x1, hx1, rfl⟩ := (hmem r1).mp hr1
   obtain ⟨x2, hx2, rfl⟩ := (hmem r2).mp hr2
   have hG : changeG (findDuplicates cand) = true := by
-    simp only [changeG, decide_eq_true_eq, setSize_gt_one_iff]
-    refine ⟨a, List.mem_flatMap.mpr ⟨x1, hx1, ?_⟩, b, List.mem_flatMap.mpr ⟨x2, hx2, ?_⟩, hab⟩
+    simp only [changeG, Bool.and_eq_true, decide_eq_true_eq, setSize_gt_one_iff]
+    refine ⟨hlen, a, List.mem_flatMap.mpr ⟨x1, hx1, ?_⟩, b, List.mem_flatMap.mpr ⟨x2, hx2, ?_⟩, hab⟩
     · rw [← (sameAlignment_flag _ _ x1.1).2.2.2.2.2.2.2.2.2]; exact ha
     · rw [← (sameAlignment_flag _ _ x2.1).2.2.2.2.2.2.2.2.2]; exact hb
   intro r hr
@@ -309,37 +316,110 @@ theorem ties_flagged_genes (l : List Rec) (h2 : 2 ≤ l.length) (hin : NoSuspend
   · exact Or.inr rfl
   · exact Or.inl rfl
 
-/-- conversely: when all retained records agree on one isoform and one gene, nothing is re-flagged -
-    the retained records are input records, untouched -/
+/-- conversely: when the read is retained on at most ONE record, or all retained records agree on one isoform and one
+    gene, nothing is re-flagged - the retained records are input records, untouched (types and multimapper flag
+    included) -/
 theorem untouched_without_tie (l : List Rec) (h2 : 2 ≤ l.length) (hin : NoSuspendedInput l) (out : List Rec)
     (hout : resolve .take_best l = some out)
-    (hiso : ∀ r1 ∈ retained out, ∀ r2 ∈ retained out, ∀ a ∈ r1.isoforms, ∀ b ∈ r2.isoforms, a = b)
-    (hgen : ∀ r1 ∈ retained out, ∀ r2 ∈ retained out, ∀ a ∈ r1.genes, ∀ b ∈ r2.genes, a = b) :
+    (hno : (retained out).length ≤ 1 ∨
+      ((∀ r1 ∈ retained out, ∀ r2 ∈ retained out, ∀ a ∈ r1.isoforms, ∀ b ∈ r2.isoforms, a = b) ∧
+       (∀ r1 ∈ retained out, ∀ r2 ∈ retained out, ∀ a ∈ r1.genes, ∀ b ∈ r2.genes, a = b))) :
     ∀ r ∈ retained out, r ∈ l := by
   obtain ⟨cand, _, rfl, hksub⟩ := take_best_shape l h2 out hout
   have hmem := mem_retained_applyKeep (fun x hx => hksub.subset hx) hin
-  have hT : changeT (findDuplicates cand) = false := by
-    simp only [changeT, decide_eq_false_iff_not, Nat.not_lt]
-    apply setSize_le_one_of_all_eq
-    intro a ha b hb
-    obtain ⟨x1, hx1, ha⟩ := List.mem_flatMap.mp ha
-    obtain ⟨x2, hx2, hb⟩ := List.mem_flatMap.mp hb
-    exact hiso _ ((hmem _).mpr ⟨x1, hx1, rfl⟩) _ ((hmem _).mpr ⟨x2, hx2, rfl⟩) a
-      (by rw [(sameAlignment_flag _ _ x1.1).2.2.2.2.2.2.2.2.1]; exact ha) b
-      (by rw [(sameAlignment_flag _ _ x2.1).2.2.2.2.2.2.2.2.1]; exact hb)
-  have hG : changeG (findDuplicates cand) = false := by
-    simp only [changeG, decide_eq_false_iff_not, Nat.not_lt]
-    apply setSize_le_one_of_all_eq
-    intro a ha b hb
-    obtain ⟨x1, hx1, ha⟩ := List.mem_flatMap.mp ha
-    obtain ⟨x2, hx2, hb⟩ := List.mem_flatMap.mp hb
-    exact hgen _ ((hmem _).mpr ⟨x1, hx1, rfl⟩) _ ((hmem _).mpr ⟨x2, hx2, rfl⟩) a
-      (by rw [(sameAlignment_flag _ _ x1.1).2.2.2.2.2.2.2.2.2]; exact ha) b
-      (by rw [(sameAlignment_flag _ _ x2.1).2.2.2.2.2.2.2.2.2]; exact hb)
+  have hTG : changeT (findDuplicates cand) = false ∧ changeG (findDuplicates cand) = false := by
+    rcases hno with hone | ⟨hiso, hgen⟩
+    · have hlen : (findDuplicates cand).length ≤ 1 := by
+        have := congrArg List.length (retained_applyKeep_eq hksub hin)
+        rw [List.length_map] at this; omega
+      exact ⟨changeT_of_length_le_one hlen, changeG_of_length_le_one hlen⟩
+    · constructor
+      · simp only [changeT, Bool.and_eq_false_iff, decide_eq_false_iff_not, Nat.not_lt]
+        right
+        apply setSize_le_one_of_all_eq
+        intro a ha b hb
+        obtain ⟨x1, hx1, ha⟩ := List.mem_flatMap.mp ha
+        obtain ⟨x2, hx2, hb⟩ := List.mem_flatMap.mp hb
+        exact hiso _ ((hmem _).mpr ⟨x1, hx1, rfl⟩) _ ((hmem _).mpr ⟨x2, hx2, rfl⟩) a
+          (by rw [(sameAlignment_flag _ _ x1.1).2.2.2.2.2.2.2.2.1]; exact ha) b
+          (by rw [(sameAlignment_flag _ _ x2.1).2.2.2.2.2.2.2.2.1]; exact hb)
+      · simp only [changeG, Bool.and_eq_false_iff, decide_eq_false_iff_not, Nat.not_lt]
+        right
+        apply setSize_le_one_of_all_eq
+        intro a ha b hb
+        obtain ⟨x1, hx1, ha⟩ := List.mem_flatMap.mp ha
+        obtain ⟨x2, hx2, hb⟩ := List.mem_flatMap.mp hb
+        exact hgen _ ((hmem _).mpr ⟨x1, hx1, rfl⟩) _ ((hmem _).mpr ⟨x2, hx2, rfl⟩) a
+          (by rw [(sameAlignment_flag _ _ x1.1).2.2.2.2.2.2.2.2.2]; exact ha) b
+          (by rw [(sameAlignment_flag _ _ x2.1).2.2.2.2.2.2.2.2.2]; exact hb)
   intro r hr
   obtain ⟨x, hx, rfl⟩ := (hmem r).mp hr
-  rw [hT, hG]
+  rw [hTG.1, hTG.2]
   exact mem_of_mem_zipIdx (hksub.subset hx)
+
+/-- **the losers do not influence the winner's record** (audit-2 GAP C08-1): when exactly one record is retained, it
+    stands in the output at its own position exactly as it stood in the input - types and multimapper flag included -
+    whatever the records that lost were.  (So every consumer downstream - counts, TSV/BED, `IntronCollector`, `IntronGraph`,
+    which skip `multimapper` records - sees what it would see had the read no other alignment.) -/
+theorem single_winner_untouched (l : List Rec) (h2 : 2 ≤ l.length) (hin : NoSuspendedInput l) (out : List Rec)
+    (hout : resolve .take_best l = some out) (r' : Rec) (h1 : retained out = [r']) :
+    ∃ i : Nat, l[i]? = some r' ∧ out[i]? = some r' := by
+  obtain ⟨cand, _, rfl, hksub⟩ := take_best_shape l h2 out hout
+  have hret := retained_applyKeep_eq hksub hin
+  rw [h1] at hret
+  cases hk : findDuplicates cand with
+  | nil => rw [hk] at hret; cases hret
+  | cons x rest =>
+    rw [hk] at hret hksub
+    cases rest with
+    | cons y rest' => simp at hret
+    | nil =>
+      have hx : r' = x.1 := by
+        have hT := changeT_of_length_le_one (kept := [x]) (by simp)
+        have hG := changeG_of_length_le_one (kept := [x]) (by simp)
+        simp only [List.map_cons, List.map_nil, List.cons.injEq, and_true, hT, hG, flag_false_false] at hret
+        exact hret
+      subst hx
+      have hxz : x ∈ l.zipIdx := hksub.subset (by simp)
+      have hl : l[x.2]? = some x.1 := List.mem_zipIdx_iff_getElem?.mp hxz
+      refine ⟨x.2, hl, ?_⟩
+      rw [getElem?_applyKeep, hl]
+      have hT := changeT_of_length_le_one (kept := [x]) (by simp)
+      have hG := changeG_of_length_le_one (kept := [x]) (by simp)
+      simp [hT, hG, flag_false_false]
+
+/-- the typical read of a novel isoform: a primary alignment that is inconsistent w.r.t. both annotated isoforms of its
+    gene, and a secondary alignment in an unannotated region that loses -/
+def witnessSingle : List Rec := [
+  { aid := 1, readId := 0, chr := 0, start := 300, stop := 360, region := (250, 400), multimapper := false, polyA := false,
+    atype := .inconsistent_ambiguous, gtype := .inconsistent, penalty := 0, isoforms := [0, 1], genes := [0] },
+  { aid := 2, readId := 0, chr := 1, start := 100, stop := 140, region := (90, 200), multimapper := true, polyA := false,
+    atype := .intergenic, gtype := .intergenic, penalty := 0, isoforms := [], genes := [] }]
+
+/-- full-strength statement of `single_winner_untouched` for an arbitrary resolution function -/
+def SingleWinnerUntouched (res : List Rec → Option (List Rec)) : Prop :=
+  ∀ (l out : List Rec) (r' : Rec), 2 ≤ l.length → NoSuspendedInput l → res l = some out → retained out = [r'] → r' ∈ l
+
+/-- **single_winner_witness**: `filter_assignments` before the `several_kept` fix re-flagged the only retained record as a
+    multimapper because it names two isoforms at its own locus - a record that is not an input record comes out, and
+    `IntronCollector` / `IntronGraph` skip it: the losing alignment decides whether the novel isoform is discovered.
+    The repaired resolver leaves it alone. -/
+theorem single_winner_witness :
+    (selectBestAssignmentBuggyFlag witnessSingle).map (fun o => o.map (fun r => (r.atype, r.multimapper)))
+      = some [(.inconsistent_ambiguous, true), (.suspended, true)] ∧
+    ¬ SingleWinnerUntouched selectBestAssignmentBuggyFlag ∧
+    (resolve .take_best witnessSingle).map (fun o => o.map (fun r => (r.atype, r.multimapper)))
+      = some [(.inconsistent_ambiguous, false), (.suspended, true)] ∧
+    SingleWinnerUntouched (resolve .take_best) := by
+  refine ⟨by decide, ?_, by decide, ?_⟩
+  · intro hall
+    have h := hall witnessSingle
+      [{ witnessSingle[0] with multimapper := true }, suspend witnessSingle[1]] { witnessSingle[0] with multimapper := true }
+      (by decide) (by decide) (by decide) (by decide)
+    revert h; decide
+  · intro l out r' h2 hin hout h1
+    obtain ⟨i, hi, _⟩ := single_winner_untouched l h2 hin out hout r' h1
+    exact List.mem_of_getElem? hi
 
 /-! ### exact duplicates -/
 
@@ -495,6 +575,13 @@ example : 2 ≤ witnessTie.length ∧ NoSuspendedInput witnessTie ∧ Has Cons w
     (resolve .take_best witnessTie).map (fun o => (retained o).map (fun r => (r.aid, r.atype, r.multimapper)))
       = some [(2, .ambiguous, true), (3, .ambiguous, true)] := by
   refine ⟨by decide, by decide, ⟨witnessTie[1], by decide, by decide⟩, by decide⟩
+
+-- `ties_flagged` needs `hsev`: without it the statement is false of the repaired resolver (one retained record naming
+-- two isoforms meets `htie` with r1 = r2 and is NOT flagged); `single_winner_untouched` / `untouched_without_tie` are live
+example : 2 ≤ witnessSingle.length ∧ NoSuspendedInput witnessSingle ∧
+    (resolve .take_best witnessSingle).map (fun o => (retained o, (retained o).length)) = some ([witnessSingle[0]], 1) ∧
+    (∃ a ∈ witnessSingle[0].isoforms, ∃ b ∈ witnessSingle[0].isoforms, a ≠ b) := by
+  refine ⟨by decide, by decide, by decide, 0, by decide, 1, by decide, by decide⟩
 
 -- a primary unique-consistent record beats a consistent secondary and an inconsistent primary
 example : (resolve .take_best [
